@@ -241,6 +241,17 @@ class Inliner:
                 continue
             h = Helper(q, node, owner)
             self.helpers[id(node)] = h
+        # two definitions of one name in one scope (if/else variants): which
+        # one a call means is a path question - leave those alone
+        seen = {}
+        for q, node, owner in self.defs:
+            key = (owner[0], id(owner[1]), node.name)
+            seen.setdefault(key, []).append(node)
+        for nodes in seen.values():
+            if len(nodes) > 1:
+                for n in nodes:
+                    if id(n) in self.helpers:
+                        self.helpers[id(n)].ok = False
         self.applied = []
         self.counter = 0
 
@@ -561,3 +572,17 @@ class Inliner:
 def inline_unknown_helpers(tree, modname, known):
     """Inline in place; returns [(helper qualname, caller, line)]."""
     return Inliner(tree, modname, known).run()
+
+
+def inline_nested_closures(fnode):
+    """For a scratch copy of one function (e.g. a specialised variant in
+    which a flag picked one of two nested definitions): inline the calls to
+    its own nested helpers, known to the reference or not.  Returns the
+    function node (modified in place)."""
+    mod = ast.Module(body=[fnode], type_ignores=[])
+    inl = Inliner(mod, "_", set())
+    for k, h in list(inl.helpers.items()):
+        if h.owner[0] != "func":
+            del inl.helpers[k]
+    inl.run()
+    return mod.body[0]
